@@ -3297,6 +3297,17 @@ class SymExec:
             else:
                 self.emit('bad_ctor', node, cls=qual, why='missing field %s' % n)
                 out.append((n, ('unknown', 'missing')))
+        post = self.facts.find_method(qual, '__post_init__')
+        if post and post in self.facts.functions and self.inline and post not in self.stack and len(self.stack) < MAX_INLINE:
+            # the generated __init__ ends with self.__post_init__(): fields it re-assigns hold the new value afterwards
+            obj0 = ('new', qual, tuple(out), eid)
+            before = len(self.events)
+            self._inline_call(post, [obj0], [], node, ('attr', freeze(obj0), '__post_init__'))
+            for ev_ in self.events[before:]:
+                if ev_.kind == 'store_attr' and self._heap_key(freeze(ev_.obj) if not isinstance(ev_.obj, tuple) else ev_.obj) == eid:
+                    ev_.d['init_field'] = True
+            changed = self.heap.get(eid, {})
+            out = [(n, freeze(changed[n]) if n in changed else v) for n, v in out]
         return ('new', qual, tuple(out), eid)
 
     # method calls on known list spines need the receiver object, not its frozen form
